@@ -223,6 +223,53 @@ def check_dispatch(res, r, tier, prep, cx, tabs, drv, only=None):
     return found
 
 
+def check_unlisted_any_state(res, r, tier, prep, cx, tabs):
+    """An unlisted code is rejected whatever the state of the thread: the probes of check_dispatch run in
+    the running state; here a sample of unlisted, non-exception codes of every model is sent to a paused and
+    to a cooling thread.  (A handler that ignores events of a thread that is not running would accept them.)"""
+    found = False
+    impl_decl = set()
+    for model, lst in gen.ovnievents_list(prep.bdir).items():
+        for sig, _ in lst:
+            impl_decl.add((ord(sig[0]), ord(sig[1]), ord(sig[2])))
+    per = 6 if tier == "quick" else 40
+    codes = []
+    for model, t in sorted(tabs.items()):
+        m = t["char"]
+        cats = sorted({k[1] for k in impl_decl if k[0] == m}) or [65]
+        got = 0
+        while got < per:
+            c = r.choice(cats) if r.random() < 0.6 else r.randrange(33, 127)
+            v = r.randrange(33, 127)
+            if (m, c, v) in impl_decl or is_exception(m, c, v):
+                continue
+            codes.append((m, c, v))
+            got += 1
+    exe = os.path.join(prep.bdir, "src/emu/ovniemu")
+    cfg = os.path.join(vcommon.REPO, "cfg")
+    with Scratch("c18st") as d, Pool(vcommon.NCPU) as pool:
+        jobs, meta = [], []
+        for i, (m, c, v) in enumerate(codes):
+            for st in ("p", "c"):
+                s = cx.probe_stream(m, c, v, state=st)
+                jobs.append((exe, os.path.join(d, "s%d%s" % (i, st)), s.relpath, s.json_text(), s.obs(), cfg))
+                meta.append(((m, c, v), st))
+        results = pool.map(c18_lib.run_probe, jobs, chunksize=8)
+    for ((k, st), (rc, err)) in zip(meta, results):
+        vd = c18_lib.classify(rc, err)
+        res.case("probe-state %s %d %d %d" % ((st,) + k), nontrivial=True)
+        res.dist("probe-state:" + vd.split(":")[0])
+        if vd == "accepted" or vd.startswith("crash") or vd == "timeout":
+            found = True
+            mcv = bytes(k)
+            res.violation("catalogue-state:" + mcv.hex(),
+                          "unlisted code %r sent to a %s thread: ovniemu verdict %s (must be rejected)" %
+                          (mcv, "paused" if st == "p" else "cooling", vd),
+                          "probe-state %s %d %d %d\n" % ((st,) + k) + cx.script(*k) + "\n# thread state before the probe: OH" + st
+                          + "\n# " + "\n# ".join(err.split("\n")[-12:]))
+    return found
+
+
 # --------------------------------------------------------------------------
 # X3: ovnidump
 # --------------------------------------------------------------------------
@@ -576,6 +623,7 @@ def check(res, tier, replay=None):
             if drv:
                 found |= check_unit(res, r, tier, prep, tabs, drv)
             found |= check_dispatch(res, r, tier, prep, cx, tabs, drv)
+            found |= check_unlisted_any_state(res, r, tier, prep, cx, tabs)
             found |= check_dump(res, r, tier, prep, cx, tabs, drv)
     for pr in prep.problems:
         res.failed_obligations = getattr(res, "failed_obligations", []) + [pr]
